@@ -48,16 +48,16 @@ Proof.
 Qed.
 
 Lemma exec_emit_each : forall o ps s h w,
-  cw o space = 1 -> scr_ok s h w -> Forall (paint_valid o h w) ps ->
+  cw o space = 1 -> erase_law o -> scr_ok s h w -> Forall (paint_valid o h w) ps ->
   let s' := exec_list o s (flat_map (fun p => fst (emit o t0 p)) ps) in
   scr_ok s' h w /\ sgrid s' = apply_paints o (sgrid s) ps /\ places s' = places s.
 Proof.
-  intros o. induction ps as [|p ps IH]; intros s h w Hsp Hs Hv; cbn [flat_map].
+  intros o. induction ps as [|p ps IH]; intros s h w Hsp Hlaw Hs Hv; cbn [flat_map].
   - rewrite exec_list_nil. auto.
   - inversion Hv; subst. rewrite exec_list_app.
     assert (Hc : consistent t0 s) by (split; simpl; intros; discriminate).
-    destruct (exec_emit o s h w t0 p Hsp Hs Hc H1) as (Hs1 & Hg1 & Hp1 & _).
-    destruct (IH _ h w Hsp Hs1 H2) as (Hs2 & Hg2 & Hp2).
+    destruct (exec_emit o s h w t0 p Hsp Hlaw Hs Hc H1) as (Hs1 & Hg1 & Hp1 & _).
+    destruct (IH _ h w Hsp Hlaw Hs1 H2) as (Hs2 & Hg2 & Hp2).
     split; auto. split.
     + rewrite Hg2, Hg1. reflexivity.
     + rewrite Hp2, Hp1. reflexivity.
@@ -184,7 +184,7 @@ Proof.
   intros. unfold pass3, images_of, mapi. rewrite flat_map_concat_mapi. f_equal.
   apply mapi_from_ext. intros r row. unfold paint_images_row, images_row, mapi.
   rewrite flat_map_concat_mapi. f_equal. apply mapi_from_ext. intros c x.
-  destruct (ckind (resolve o x)); simpl; auto. rewrite app_nil_r. reflexivity.
+  destruct (ckind (resolve o x)); simpl; auto. rewrite app_nil_r. symmetry. apply image_cmds_paint_image.
 Qed.
 
 Lemma in_images_of : forall o s r c f i,
@@ -220,6 +220,7 @@ Section Show.
   Variable s : grid cell.
   Let nw := gmap (resolve o) s.
   Hypothesis Hsp : cw o space = 1.
+  Hypothesis Hlaw : erase_law o.
   Hypothesis Hsd : gdims s h w.
   Hypothesis GN : Good o h w nw.
 
@@ -252,31 +253,57 @@ Section Show.
     Hypothesis Hrow : nth_error s r = Some row.
     Let ps := naive_row o r 0 0 row.
 
-    Lemma naive_wide_owner : forall c' y ch q,
-      gget nw r c' = Some y -> ckind y = KChar ch -> cw o ch = 2 ->
-      In q ps -> pstart q <= c' < pstart q + plen o q -> q = PChar r c' (cface y) ch.
+    Lemma row_of_nw : forall c y ch, gget nw r c = Some y -> ckind y = KChar ch -> nth_error row c = Some y.
     Proof.
-      intros c' y ch q Hy Hk Hw2 Hin Hrange.
+      intros c y ch Ey Eky. unfold nw in Ey. rewrite gget_gmap in Ey. unfold gget in Ey. rewrite Hrow in Ey.
+      destruct (nth_error row c) as [y0|] eqn:E0; [|discriminate]. simpl in Ey. inversion Ey; subst y.
+      destruct y0 as [f0 [c0|i0|g0]]; simpl in *; try discriminate. reflexivity.
+    Qed.
+
+    Lemma naive_cover_of_wide : forall c' y ch q,
+      gget nw r c' = Some y -> ckind y = KChar ch -> cw o ch = 2 -> hidden o nw r c' = false ->
+      In q ps -> pstart q <= c' < pstart q + plen o q -> hidden o nw r (pstart q) = false ->
+      q = PChar r c' (cface y) ch.
+    Proof.
+      intros c' y ch q Hy Hk Hw2 Hh Hin Hrange Hhq.
       destruct (naive_sound o r row 0 0 q Hin) as (j & x & chj & _ & Hx & Hkx & Hwx & ->).
-      cbn [pstart plen Nat.add] in Hrange.
+      cbn [pstart plen Nat.add] in Hrange, Hhq.
       pose proof (nw_char r row j x chj Hrow Hx Hkx) as Hgx.
       destruct (Nat.eq_dec j c') as [->|Hne].
       - rewrite Hgx in Hy. inversion Hy; subst y. rewrite Hkx in Hk. inversion Hk; subst. reflexivity.
       - exfalso.
         pose proof (good_cells _ _ _ _ GN r j x Hgx) as Hg. unfold cell_good in Hg. rewrite Hkx in Hg.
-        assert (cw o chj = 2) by lia. assert (c' = S j) by lia. subst c'.
-        assert (Hb : r < h /\ S j < w) by (eapply nw_bounds'; eauto).
-        destruct (good_disjoint _ _ _ _ GN r (S j) r j r (S j) x y) as [_ Hc]; auto; try lia.
-        + unfold occupies. rewrite Hkx. lia.
-        + unfold occupies. rewrite Hk. lia.
+        assert (Hw2j : cw o chj = 2) by lia. assert (c' = S j) by lia. subst c'.
+        assert (Hwd : is_wide o x = true) by (unfold is_wide; rewrite Hkx, Hw2j; reflexivity).
+        destruct (hidden_S o nw r j x Hgx Hwd Hhq) as [Hh' _]. congruence.
+    Qed.
+
+    (* the painter never paints a hidden cell *)
+    Lemma naive_owner_shown : forall j p, In p ps -> pstart p = j -> hidden o nw r j = false.
+    Proof.
+      induction j as [j IH] using lt_wf_ind. intros p Hin Hst.
+      destruct (hidden o nw r j) eqn:Ehid; auto. exfalso.
+      assert (Hlw : left_wide o nw r j <> None) by (intros H; apply left_wide_hidden in H; congruence).
+      destruct (left_wide o nw r j) as [f|] eqn:El; [|congruence].
+      apply left_wide_some in El. destruct El as (j' & y & -> & Hy & Hwd & Hh & _).
+      destruct (is_wide_char o y Hwd) as (chy & Eky & Ew).
+      pose proof (row_of_nw j' y chy Hy Eky) as Hyrow.
+      destruct (naive_cover o r row 0 0 j' y chy ltac:(lia) Hyrow Eky ltac:(lia)) as (q & Hq & Hrange).
+      cbn [Nat.add] in Hrange.
+      assert (Hhq : hidden o nw r (pstart q) = false) by (apply (IH (pstart q) ltac:(lia) q Hq eq_refl)).
+      assert (Hqe : q = PChar r j' (cface y) chy) by (eapply naive_cover_of_wide; eauto).
+      pose proof (naive_chain o r row 0 0) as Hch.
+      pose proof (chain_disjoint o _ _ q p Hch Hq Hin) as Hd.
+      subst q. simpl in Hd. rewrite Hst, Ew in Hd. lia.
     Qed.
 
     Lemma naive_conform : forall p, In p ps ->
       conform o T covered p /\ paint_valid o h w p /\ prow p = r.
     Proof.
       intros p Hin.
+      pose proof (naive_owner_shown (pstart p) p Hin eq_refl) as Hshown.
       destruct (naive_sound o r row 0 0 p Hin) as (j & x & ch & _ & Hx & Hk & Hw & ->).
-      cbn [Nat.add].
+      cbn [Nat.add pstart] in *.
       pose proof (nw_char r row j x ch Hrow Hx Hk) as Hgx.
       assert (Hb : r < h /\ j < w) by (eapply nw_bounds'; eauto).
       pose proof (good_cells _ _ _ _ GN r j x Hgx) as Hg. unfold cell_good in Hg. rewrite Hk in Hg.
@@ -285,22 +312,7 @@ Section Show.
         + left. split; auto. destruct (covered r j) eqn:Ecov; auto. right.
           unfold T. apply den_narrow; auto.
           * unfold covered in Ecov. destruct (cover_img o h w nw r j); auto. discriminate.
-          * destruct (left_wide o nw r j) as [f|] eqn:El; auto. exfalso.
-            unfold left_wide in El. destruct j as [|j']; [discriminate|].
-            destruct (gget nw r j') as [y|] eqn:Ey; [|discriminate].
-            destruct (is_wide o y) eqn:Ewd; [|discriminate].
-            unfold is_wide in Ewd. destruct (ckind y) as [chy| |] eqn:Eky; try discriminate.
-            apply Nat.eqb_eq in Ewd.
-            (* the wide character at j' is painted and its paint would reach column S j' *)
-            assert (Hyrow : nth_error row j' = Some y).
-            { unfold nw in Ey. rewrite gget_gmap in Ey. unfold gget in Ey. rewrite Hrow in Ey.
-              destruct (nth_error row j') as [y0|] eqn:E0; [|discriminate]. simpl in Ey. inversion Ey; subst y.
-              destruct y0 as [f0 [c0|i0|g0]]; simpl in *; try discriminate. reflexivity. }
-            destruct (naive_cover o r row 0 0 j' y chy ltac:(lia) Hyrow Eky ltac:(lia)) as (q & Hq & Hrange).
-            assert (Hqe : q = PChar r j' (cface y) chy) by (eapply naive_wide_owner; eauto).
-            pose proof (naive_chain o r row 0 0) as Hch.
-            pose proof (chain_disjoint o _ _ q (PChar r (S j') (cface x) ch) Hch Hq Hin) as Hd.
-            subst q. simpl in Hd. rewrite Ewd in Hd. lia.
+          * apply left_wide_hidden. exact Hshown.
         + right. split; auto. right. unfold T. eapply den_wide; eauto.
       - simpl. lia.
     Qed.
@@ -314,24 +326,17 @@ Section Show.
       destruct (gget_in_bounds nw h w r c (good_dims _ _ _ _ GN) Hr Hc) as (x & Hx).
       assert (Hrowlen : length row = w) by (eapply gdims_row; eauto).
       destruct (left_wide o nw r c) as [fw|] eqn:Elw.
-      - unfold left_wide in Elw. destruct c as [|c']; [discriminate|].
-        destruct (gget nw r c') as [y|] eqn:Ey; [|discriminate].
-        destruct (is_wide o y) eqn:Ewd; [|discriminate].
-        unfold is_wide in Ewd. destruct (ckind y) as [chy| |] eqn:Eky; try discriminate.
-        apply Nat.eqb_eq in Ewd.
-        assert (Hyrow : nth_error row c' = Some y).
-        { unfold nw in Ey. rewrite gget_gmap in Ey. unfold gget in Ey. rewrite Hrow in Ey.
-          destruct (nth_error row c') as [y0|] eqn:E0; [|discriminate]. simpl in Ey. inversion Ey; subst y.
-          destruct y0 as [f0 [c0|i0|g0]]; simpl in *; try discriminate. reflexivity. }
+      - apply left_wide_some in Elw. destruct Elw as (c' & y & -> & Ey & Ewd & Ehid & _).
+        destruct (is_wide_char o y Ewd) as (chy & Eky & Ew).
+        pose proof (row_of_nw c' y chy Ey Eky) as Hyrow.
         destruct (naive_cover o r row 0 0 c' y chy ltac:(lia) Hyrow Eky ltac:(lia)) as (q & Hq & Hrange).
-        assert (Hqe : q = PChar r c' (cface y) chy) by (eapply naive_wide_owner; eauto).
+        cbn [Nat.add] in Hrange.
+        assert (Hqe : q = PChar r c' (cface y) chy).
+        { eapply naive_cover_of_wide; eauto. eapply naive_owner_shown; eauto. }
         exists q. split; auto. subst q. simpl. lia.
       - pose proof (good_cells _ _ _ _ GN r c x Hx) as Hg. unfold cell_good in Hg.
         destruct (ckind x) as [ch|i|g] eqn:Ek.
-        + assert (Hxrow : nth_error row c = Some x).
-          { unfold nw in Hx. rewrite gget_gmap in Hx. unfold gget in Hx. rewrite Hrow in Hx.
-            destruct (nth_error row c) as [y0|] eqn:E0; [|discriminate]. simpl in Hx. inversion Hx; subst x.
-            destruct y0 as [f0 [c0|i0|g0]]; simpl in *; try discriminate. reflexivity. }
+        + pose proof (row_of_nw c x ch Hx Ek) as Hxrow.
           destruct (naive_cover o r row 0 0 c x ch ltac:(lia) Hxrow Ek ltac:(lia)) as (q & Hq & Hrange).
           exists q. split; auto.
           destruct (naive_conform q Hq) as (_ & _ & Hrw).
@@ -370,7 +375,7 @@ Section Show.
       destruct (naive_conform r row Hr Hrow p Hin) as (H1 & H2 & _). auto. }
     assert (Hvalid : Forall (paint_valid o h w) (naive_rows o 0 s)).
     { apply Forall_forall. intros p Hp. apply Hall. auto. }
-    destruct (exec_emit_each o (naive_rows o 0 s) (blank_screen h w) h w Hsp Hs0 Hvalid) as (Hs1 & Hg1 & Hp1).
+    destruct (exec_emit_each o (naive_rows o 0 s) (blank_screen h w) h w Hsp Hlaw Hs0 Hvalid) as (Hs1 & Hg1 & Hp1).
     set (s1 := exec_list o (blank_screen h w) _) in *.
     assert (Hok1 : forall r c, r < h -> c < w -> covered r c = false -> okc T (sgrid s1) r c).
     { intros r c Hr Hc Hcov. rewrite Hg1.
@@ -418,7 +423,7 @@ Section Show.
           pose proof Hi as Hi2. apply img_at_some in Hi2. destruct Hi2 as (x & Hx & Hk & Hf).
           assert (Hmem : In (r0, c0, f, i) (images_of o s)) by (apply Himg_mem; eauto).
           unfold in_rect in Hin. apply andb_true_iff in Hin. rewrite !in_range_true in Hin.
-          exists (PBlanks (Nat.min r (h - 1)) c0 f (Nat.min (snd (isz o i)) (w - c0))). split.
+          exists (PErase (Nat.min r (h - 1)) c0 f (Nat.min (snd (isz o i)) (w - c0))). split.
           -- unfold imgs_paints. apply in_flat_map. exists (r0, c0, f, i). split; auto.
              unfold img_paints. apply in_map_iff. exists r. split; auto. apply in_seq. lia.
           -- simpl. rewrite Nat.min_l by lia. split; auto. lia.
